@@ -354,6 +354,11 @@ func (c *walkSem) listOf(e *Engine, st *State, x ast.Expr) string {
 		}
 		return listUnknown
 	case *ast.SliceExpr:
+		if v.High != nil {
+			if z, ok := constInt(info, v.High); ok && z == 0 {
+				return listEmpty // buf = buf[:0]
+			}
+		}
 		return c.listOf(e, st, v.X)
 	case *ast.CompositeLit:
 		var all []pushEntry
@@ -537,10 +542,14 @@ func (c *walkSem) PostAssign(e *Engine, st *State, lhs, rhs []ast.Expr, stmt ast
 			}
 			// stack = stack[:len(stack)-1]
 			if sl, ok := ast.Unparen(rhs[i]).(*ast.SliceExpr); ok && c.isNodeSlice(o.Type()) && objOf(info, sl.X) == o {
-				if sl.Low == nil && sl.High != nil && isLenMinus1(info, e.P.DefExpr(sl.High), o) {
-					out = out.WithExt("reslices", bump(out.Ext("reslices"))).WithExt("resliced", e.objKey(o))
-				} else {
-					out = out.WithExt("reslices", "2")
+				rk := "reslice:" + e.objKey(o)
+				switch {
+				case sl.Low == nil && sl.High != nil && isLenMinus1(info, e.P.DefExpr(sl.High), o):
+					out = out.WithExt(rk, bump(out.Ext(rk)))
+				case sl.Low == nil && sl.High != nil && func() bool { z, isC := constInt(info, sl.High); return isC && z == 0 }():
+					// emptied (a scratch list): not a removal from the worklist
+				default:
+					out = out.WithExt(rk, "2")
 				}
 			}
 		}
@@ -654,8 +663,13 @@ func (c *walkSem) LoopHead(e *Engine, st *State, loop ast.Stmt) *State {
 			out = out.WithExt(k, listEmpty)
 		}
 	}
-	for _, k := range []string{"cur", "popfrom", "pops", "reslices", "resliced", "visits", "visitarg", "visitkey"} {
+	for _, k := range []string{"cur", "popfrom", "pops", "visits", "visitarg", "visitkey"} {
 		out = out.WithExt(k, "")
+	}
+	for k := range st.ext {
+		if strings.HasPrefix(k, "reslice:") {
+			out = out.WithExt(k, "")
+		}
 	}
 	if out != st {
 		return out
@@ -671,10 +685,10 @@ func (c *walkSem) LoopBack(e *Engine, st *State, loop ast.Stmt) {
 		fmt.Fprintln(os.Stderr, "WALK", st.String())
 	}
 	cur := st.Ext("cur")
-	okPop := st.Ext("pops") == "1" && st.Ext("reslices") == "1" && st.Ext("popfrom") == st.Ext("resliced") && cur != ""
+	okPop := st.Ext("pops") == "1" && st.Ext("reslice:"+st.Ext("popfrom")) == "1" && cur != ""
 	e.Site("C11/once", c.fn+" pop discipline", loop, okPop, "each iteration pops exactly the last element and dispatches on it")
 	if !okPop {
-		e.Site("C11/once", c.fn+" pop discipline", loop, false, fmt.Sprintf("worklist pop discipline broken (reads of the last element per iteration=%s, removals=%s)", st.Ext("pops"), st.Ext("reslices")))
+		e.Site("C11/once", c.fn+" pop discipline", loop, false, fmt.Sprintf("worklist pop discipline broken (reads of the last element per iteration=%s, removals=%s)", st.Ext("pops"), st.Ext("reslice:"+st.Ext("popfrom"))))
 		return
 	}
 	pushed, known := decodeEntries(st.Ext("list:" + st.Ext("popfrom")))
